@@ -773,7 +773,7 @@ class Emit:
         body.append('void __ll2c_global_ctors(void) { %s }' % ' '.join('%s();' % cname(c) for c in m.ctors if kept(c)))
         hdr = ['#include <stdint.h>', '#include <stddef.h>', '#include <string.h>', '#include <stdlib.h>',
                '#ifndef __CPROVER__', '#include "ll2c_rt.h"', '#endif',
-               'extern int vf_nd_count; extern long long vf_nd_val;',
+               'extern int vf_nd_count; extern long long vf_nd_val; extern unsigned char vf_nd_ok;',
                '#ifdef __CPROVER__',
                'int nondet_int(void); unsigned nondet_uint(void); unsigned short nondet_ushort(void); unsigned char nondet_uchar(void); long long nondet_longlong(void);',
                'static uint32_t vf_nondet_int(void) { return (uint32_t)nondet_int(); } static uint32_t vf_nondet_uint(void) { return nondet_uint(); }',
@@ -1154,14 +1154,16 @@ class Emit:
             if v[0] == 'cgep' and v[3][0] == 'id': msg = s.cstring_of_global(v[3][1])
             if msg is None: msg = 'assertion'
             msg = msg.replace('\\', '/').replace('"', "'")
-            return '__CPROVER_assert(%s, "%s");' % (V(*args[0]), msg)
+            # (vf_nd_ok is always 1: it makes the assertion depend on the log of nondet values, so that --slice-formula keeps that
+            #  log and the counterexample trace carries every input value, also those the failing property does not depend on)
+            return '__CPROVER_assert(!vf_nd_ok || (%s), "%s");' % (V(*args[0]), msg)
         if callee == '@vf_witness':
-            return '\n#ifdef VF_WITNESS\n__CPROVER_assert(0, "WITNESS end of harness reachable");\n#endif\n;'
+            return '\n#ifdef VF_WITNESS\n__CPROVER_assert(!vf_nd_ok, "WITNESS end of harness reachable");\n#endif\n;'
         if callee == '@vf_note':
             return ';'
         if callee.startswith('@vf_nondet_'):
             loc[dst] = s.ctype(rt)
-            return '%s = %s(); vf_nd_val = (long long)%s; vf_nd_count++;' % (s.lv(dst), cname(callee), s.lv(dst))
+            return '%s = %s(); vf_nd_val = (long long)%s; vf_nd_count++; vf_nd_ok = vf_nd_ok & (unsigned char)(vf_nd_val == (long long)%s);' % (s.lv(dst), cname(callee), s.lv(dst), s.lv(dst))
         if callee == '@__dynamic_cast':
             return setv(rt, 'll2c_dynamic_cast(%s, (const void*)%s, (const void*)%s)' % (V(*args[0]), V(*args[1]), V(*args[2])))
         if callee == '@strlen':
